@@ -144,7 +144,14 @@ def build(seed, tier):
         ops.append({'op': 'run', 'enumerate': True, 'exc': rf.choice(faults.ORDINARY), 'after_stop': True})
     elif end < 0.85:
         ops.append({'op': 'resolve'})
+    knobs = {}
+    kn = ro.random()
+    if kn < 0.1:
+        knobs['full_traceback'] = True
+    elif kn < 0.25:
+        knobs['tracer'] = ro.choice(['native', 'calls'])
     return {'pieces': pieces, 'pattern': pattern, 'pname': pname, 'independent': independent, 'ops': ops, 'funcs': funcs,
+            'knobs': knobs,
             'main_file': r.choice(['answer.py', 'answer.py', 'student_code.py', 'main.py']),
             'meta': {'seed': seed, 'markers': m, 'mode': 'independent' if independent else 'cumulative'}}
 
@@ -190,6 +197,11 @@ def execute(spec):
     world.install_seeded_sets(MAIN_REPORT, 3)
     MAIN_REPORT.contextualize(Submission(files={main_file: original}, main_file=main_file, instructor_file='instructor.py'))
     sub = MAIN_REPORT.submission
+    knobs = spec.get('knobs') or {}
+    if knobs.get('full_traceback'):
+        get_sandbox().full_traceback = True
+    if knobs.get('tracer'):
+        get_sandbox().tracer_style = knobs['tracer']
     obs = []
     out = {'original': original}
 
